@@ -128,7 +128,7 @@ inline uint64_t hash_outputs(const ApiCase& c, const ExecResult& r) {
 }
 inline void add_module_ops(std::vector<LsmOp>& ops, const std::vector<uint64_t>& Ns, uint64_t salt = 0) {
   gen_salt() = salt;
-  BoxOpts o; o.Ns = Ns; o.max_size = 2; o.vmp_max_dim = 2; o.vmp_max_size = 2; o.ks = {10}; o.cf = {CFG_NATIVE};
+  BoxOpts o; o.Ns = Ns; o.max_size = 2; o.extra_sizes = {}; o.vmp_max_dim = 2; o.vmp_max_size = 2; o.ks = {10}; o.cf = {CFG_NATIVE};
   for (auto& G : api_groups(o)) {
     // one representative (the last, i.e. largest, shape) per group
     std::shared_ptr<ApiCase> last;
